@@ -82,6 +82,12 @@ UNIVERSES = {
                 ["set_doc", "br1", "A"], ["set_doc", "text1", "A"], ["set_doc", "div2", "B"]],
     },
   },
+  # three nestable elements of the same kind: trees of depth 2, so that an ancestor that is not the parent exists
+  "chain": {
+    "docs": ["A", "B"], "ids": [],
+    "elems": [["div1", "Div", None], ["div2", "Div", None], ["div3", "Div", None], ["span1", "Span", None], ["span2", "Span", None], ["span3", "Span", None]],
+    "presets": {"detached": []},
+  },
   "registry": {
     "docs": ["A", "B"], "ids": ["r1", "r2", "zz"],
     "elems": [["body", "Body", "A"], ["div1", "Div", "A"], ["p1", "P", "A"],
@@ -117,10 +123,10 @@ UNIVERSES = {
 # event menus
 
 
-def menu_structure(subset=None):
+def menu_structure(subset=None, uname="structure"):
   """every call of the structure universe; with `subset` only calls whose target and arguments lie in the subset
   (the other elements stay in the world, untouched)"""
-  u = UNIVERSES["structure"]
+  u = UNIVERSES[uname]
   els = [e[0] for e in u["elems"] if subset is None or e[0] in subset]
   kind = {e[0]: e[1] for e in u["elems"]}
   ev = []
@@ -546,6 +552,9 @@ def plan(tier, seed):
     if thorough or i == seed % len(STRUCTURE_SLICES):
       fams.append(family(f"structure-deep[{sname}]", "structure", menu_structure(subset), 4 if (sname == "lower" and not thorough) else 12,
                          f"all calls among {'/'.join(subset)} only, searched until no new state appears (depth bound 12 not reached)" if (thorough or sname != "lower") else f"all calls among {'/'.join(subset)} only"))
+  for cname, subset in (("div", ["div1", "div2", "div3"]), ("span", ["span1", "span2", "span3"])):
+    fams.append(family(f"structure-chain[{cname}]", "chain", menu_structure(subset, "chain"), 12,
+                       f"all calls among three {cname} elements (trees of depth 2: grandparent / grandchild), searched until no new state appears"))
   fams += [
     family("registry", "registry", menu_registry(), 5 if thorough else 4,
            "put_region/remove_region/set_region/set_body/set_doc/push_child/remove with two regions sharing an id, a region of "
